@@ -542,6 +542,12 @@ func (p *OAuthProxy) Proxy(rw http.ResponseWriter, req *http.Request) {
 	tags := []string{"action:proxy"}
 	var err error
 
+	// The identity headers are asserted by the proxy alone: drop whatever the
+	// client sent, also for requests that skip authentication.
+	for _, header := range []string{"X-Forwarded-User", "X-Forwarded-Email", "X-Forwarded-Groups", "X-Forwarded-Access-Token"} {
+		req.Header.Del(header)
+	}
+
 	// If the request is explicitly whitelisted, we skip authentication
 	if p.IsWhitelistedRequest(req) {
 		tags = append(tags, "auth_type:whitelisted")
